@@ -1,6 +1,9 @@
 """Property -> rule instances.  Each entry lists the rule functions (taking (analysis, report)), the claimed level,
 the explanation recorded in the evidence and the not-decided remainder (assumptions)."""
 from .rules import n_totality as N
+from .rules import u_unsafe as U
+from .rules import s_state as S
+from .rules import p_primitive as P
 
 
 def _n1(an, rep):
@@ -13,17 +16,53 @@ def _n2(an, rep):
 
 THIRD_PARTY = "third-party crates (chrono, flate2/miniz_oxide, num-bigint, bigdecimal, uuid, bytes, hashbrown, castaway, " \
               "std) behave as documented; a callee without a `# Panics` section in its rustdoc does not panic"
+MIR_TB = ["rustc nightly front end + MIR construction (mir-opt-level=0, overflow checks on)", "mirdump fact extraction",
+          "the rule implementations under /verif/py/vf"]
 
 PROPS = {
     "C05": {
         "level": "other",
-        "rules": [_n1, N.sign_loss_casts, N.alloc_taint, N.loops_progress],
+        "rules": [_n1, N.sign_loss_casts, N.alloc_taint, N.loops_progress, P.sources_agree, U.inventory, U.transmutes,
+                  U.uninit_apis],
         "explanation": "Static totality argument for the decode side over the resolved MIR of desert_core: every "
                        "may-panic site reachable from the decode entry points is enumerated and discharged (N1), no signed "
                        "wire integer becomes a size unchecked (N3), no allocation is sized by an unsanitised wire value "
-                       "(N4), every loop makes progress (N5).",
+                       "(N4), every loop makes progress (N5), the three sources use one overflow-safe bounds guard (P4), "
+                       "and the unsafe inventory is closed with typed transmute obligations (U1-U3).",
         "assumptions": [THIRD_PARTY,
                         "not decided: wall-clock and heap budgets, stack depth of recursive decoders",
                         "allow-listed sites rest on the invariants named in their reason lines (checked by packs P/R/T)"],
+        "trusted_base": MIR_TB,
+    },
+    "C15": {
+        "level": "other",
+        "rules": [P.output_methods, P.sink_bodies, P.input_methods, P.sources_agree, P.parametricity, S.fresh_context],
+        "explanation": "Parametricity argument: generic codec code reaches a sink only through write_u8/write_bytes (P1), the "
+                       "sinks implement exactly these two with the obvious bodies and SizeCalculator counts exactly (P2), no "
+                       "code branches on the sink type (P5), the convenience entry points funnel into serialize (S5); the "
+                       "three sources agree primitive by primitive and on end-of-input (P3, P4).",
+        "assumptions": ["user-defined outputs are covered only in so far as they implement the two required methods faithfully",
+                        THIRD_PARTY],
+        "trusted_base": MIR_TB,
+    },
+    "C18": {
+        "level": "proof",
+        "rules": [S.statics_inventory, S.lazy_initialisers, S.constructors_and_writers, S.no_hash_iteration, S.fresh_context],
+        "explanation": "Non-interference argument: the only process-wide state is Lazy<AdtMetadata> (S1) whose initialisers "
+                       "are closed functions of constants (S2); per-call state is created per context and written only by two "
+                       "functions (S3); hash seeds cannot reach the output (S4); every entry point builds a fresh context (S5).",
+        "assumptions": ["std::sync::Once / lazy_static run an initialiser at most once and publish its result safely",
+                        "auto-trait facts (contexts and State are !Send) are decided by the witness crate (U6) when present"],
+        "trusted_base": MIR_TB + ["std::sync::Once", "lazy_static", "rustc auto-trait inference"],
+    },
+    "C19": {
+        "level": "other",
+        "rules": [U.inventory, U.transmutes, U.uninit_apis, U.raw_provenance],
+        "explanation": "Closed inventory of unsafe operations (U1) with a typed obligation at each transmute (U2), no "
+                       "uninitialised-memory API (U3) and a provenance rule for raw pointers that are handed back as "
+                       "references (U4).",
+        "assumptions": ["soundness of the unsafe code inside castaway, bytes, hashbrown, std is trusted",
+                        "client programs are represented by the witness catalogue (U5) and the general U4 rule"],
+        "trusted_base": MIR_TB,
     },
 }
